@@ -377,3 +377,45 @@ Proof.
   - unfold cs_y1, cs_y2, dsum. cbn [uc dc vsum].
     rewrite !cs_Rs by (unfold cs_K; tauto). unfold cs_f1, cs_f2, gram; cbn. lra.
 Qed.
+
+(* ---------- uncertainty = the non-negative square root of the variance; correlation =
+   covariance / (u_a u_b) ---------- *)
+Theorem uncertainty_is_sqrt_variance (s : state) (o : ureal) u c' :
+  node_u RNum s o = Ok None -> prop_u RNum s o None = Ok (u, c') ->
+  exists v, std_variance_real RNum s o = Ok v /\ 0 <= v /\ u = sqrt v /\ 0 <= u /\ u * u = v.
+Proof.
+  intros Hn H. unfold prop_u in H. rewrite Hn in H. cbn [bind] in H.
+  destruct (std_variance_real RNum s o) as [v|e] eqn:Ev; cbn [bind] in H; [|discriminate].
+  cbn [libm1 RNum R_libm1] in H. destruct (Rle_dec 0 v) as [Hv|Hv]; [|discriminate]. cbn [bind] in H.
+  injection H as <- _. exists v. repeat split; auto.
+  - apply sqrt_pos.
+  - apply sqrt_sqrt. exact Hv.
+Qed.
+
+Theorem correlation_is_normalised_covariance (s : state) (a b : ureal) r :
+  ((forall k, unode a <> LeafRef k) \/ (forall k, unode b <> LeafRef k)) ->
+  get_correlation_real RNum s a b = Ok r ->
+  exists va vb c, std_variance_real RNum s a = Ok va /\ std_variance_real RNum s b = Ok vb /\
+                  std_covariance_real RNum s a b = Ok c /\
+                  (c = 0 -> r = 0) /\ (c <> 0 -> r = c / sqrt (va * vb)).
+Proof.
+  intros Hbr H. unfold get_correlation_real in H.
+  assert (H' : (v1 <- std_variance_real RNum s a ;; v2 <- std_variance_real RNum s b ;;
+                num <- std_covariance_real RNum s a b ;;
+                den <- libm1 RNum F_sqrt (mul RNum v1 v2) ;;
+                if negb (eqb RNum num (zero RNum)) then div RNum num den else Ok (zero RNum)) = Ok r).
+  { repeat match type of H with
+           | (match ?x with _ => _ end = _) => let E := fresh "E" in destruct x eqn:E
+           end; try exact H; exfalso; destruct Hbr as [Hn|Hn]; eapply Hn; eassumption. }
+  clear H.
+  destruct (std_variance_real RNum s a) as [va|] eqn:Eva; [|discriminate].
+  destruct (std_variance_real RNum s b) as [vb|] eqn:Evb; [|discriminate].
+  destruct (std_covariance_real RNum s a b) as [c|] eqn:Ec; [|discriminate].
+  cbn [bind libm1 RNum R_libm1 mul] in H'.
+  destruct (Rle_dec 0 (va * vb)) as [Hp|Hp]; [|discriminate]. cbn [bind eqb RNum div] in H'.
+  unfold zero in H'; cbn [of_Z RNum] in H'. unfold Reqb in H'.
+  exists va, vb, c. repeat split; auto.
+  - intros ->. destruct (Req_EM_T 0 0) as [_|N0]; [|contradiction N0; reflexivity]. cbn [negb] in H'. injection H' as <-. reflexivity.
+  - intros Hc. destruct (Req_EM_T c 0) as [E|_]; [contradiction|]. cbn [negb] in H'. unfold R_div in H'.
+    destruct (Req_EM_T (sqrt (va * vb)) 0); [discriminate|]. injection H' as <-. reflexivity.
+Qed.
